@@ -3,6 +3,7 @@
 package props
 
 import (
+	"bytes"
 	"fmt"
 	"strconv"
 	"strings"
@@ -180,15 +181,56 @@ func ApplyV5(doc, patch string, o V5Opts, indent string) ApplyResult {
 	lo := o.Lib()
 	res.Events = watch(lo)
 	defer unwatch(lo)
+	var dec jp.Patch
 	res.Panic = mon.Try(func() {
 		p, err := jp.DecodePatch([]byte(patch))
 		if err != nil {
 			res.DecodeErr = err
 			return
 		}
+		dec = p
 		res.Out, res.Err = p.ApplyIndentWithOptions([]byte(doc), indent, lo)
 	})
+	if res.Panic == nil && dec != nil && core.Hash64(doc, patch)%3 == 0 {
+		res.Panic = entryPointsAgree(dec, doc, indent, o, res.Out, res.Err)
+	}
 	return res
+}
+
+// entryPointsAgree: Apply, ApplyIndent and ApplyWithOptions are documented as
+// ApplyIndentWithOptions with defaults filled in. On one input in three the
+// other applicable entry points are called as well and must return the same
+// bytes and the same error; a disagreement (options not passed on, defaults
+// taken from the wrong place, indentation applied to something else) is
+// reported through the same channel as a panic, so every judge sees it.
+func entryPointsAgree(p jp.Patch, doc, indent string, o V5Opts, out []byte, err error) *mon.Panic {
+	type variant struct {
+		name string
+		call func() ([]byte, error)
+	}
+	var vs []variant
+	if indent == "" {
+		vs = append(vs, variant{"ApplyWithOptions", func() ([]byte, error) { return p.ApplyWithOptions([]byte(doc), o.Lib()) }})
+	}
+	if o.NegIdx == jp.SupportNegativeIndices && !o.AllowMissing && !o.EnsurePath && o.EscapeHTML && o.Limit == jp.AccumulatedCopySizeLimit {
+		vs = append(vs, variant{"ApplyIndent", func() ([]byte, error) { return p.ApplyIndent([]byte(doc), indent) }})
+		if indent == "" {
+			vs = append(vs, variant{"Apply", func() ([]byte, error) { return p.Apply([]byte(doc)) }})
+		}
+	}
+	for _, v := range vs {
+		var o2 []byte
+		var e2 error
+		if pn := mon.Try(func() { o2, e2 = v.call() }); pn != nil {
+			return pn
+		}
+		if !bytes.Equal(out, o2) || (out == nil) != (o2 == nil) || errText(err) != errText(e2) {
+			return &mon.Panic{Deviation: true, Class: "entry-points-disagree", Site: v.name,
+				Value: fmt.Sprintf("ApplyIndentWithOptions(indent %q) returned (%s, %q) but %s returned (%s, %q) for the same patch, document and options", indent, clip(string(out), 300), errText(err), v.name, clip(string(o2), 300), errText(e2)),
+				Entry: "ApplyIndentWithOptions", Stack: "(no stack: two entry points were compared)"}
+		}
+	}
+	return nil
 }
 
 // ---------------------------------------------------------------- patch text
